@@ -179,7 +179,7 @@ func rulesC04(w *World, r *Report) {
 		if regexp.MustCompile(`^(i\d+|p4) < p2$`).MatchString(c) {
 			okFuture = true
 		}
-		if regexp.MustCompile(`^p3 < \(whispertool\.Timestamp\)\.Add\((i\d+|p4), -\(\*whispertool\.ArchiveInfo\)\.MaxRetention\(\(\*whispertool\.Whisper\)\.ArchiveInfoList\(p0\)\[(i\d+|p1)\]\)\)$`).MatchString(c) {
+		if regexp.MustCompile(`^p3 < whispertool\.Timestamp\.Add\((i\d+|p4), -whispertool\.ArchiveInfo\.MaxRetention\(p0\.header\.archiveInfoList\[(i\d+|p1)\]\)\)$`).MatchString(c) {
 			okOld = true
 		}
 	}
@@ -207,6 +207,8 @@ func rulesC04(w *World, r *Report) {
 			}
 			if b, ok := c.Call.Value.(*ssa.Builtin); ok && b.Name() == "len" {
 				if ac, ok := stripChangeType(c.Call.Args[0]).(*ssa.Call); ok && ail != nil && ac.Common().StaticCallee() == ail {
+					lenBind[c] = aval{k: kInt, i: nArch}
+				} else if newExprCtx(w).expr(c.Call.Args[0]) == "p0.header.archiveInfoList" {
 					lenBind[c] = aval{k: kInt, i: nArch}
 				}
 			}
@@ -274,8 +276,8 @@ func rulesC04(w *World, r *Report) {
 		e := newExprCtx(w)
 		from := e.expr(sh.fields["fromTime"])
 		step := e.expr(sh.fields["step"])
-		okFrom := regexp.MustCompile(`^\(\*whispertool\.ArchiveInfo\)\.interval\(\(\*whispertool\.Whisper\)\.ArchiveInfoList\(p0\)\[(i\d+|p1)\], i\d+\)$`).MatchString(from)
-		okStep := regexp.MustCompile(`^\(\*whispertool\.Whisper\)\.ArchiveInfoList\(p0\)\[(i\d+|p1)\]\.secondsPerPoint$`).MatchString(step) || strings.HasPrefix(step, "(*whispertool.ArchiveInfo).SecondsPerPoint(")
+		okFrom := regexp.MustCompile(`^whispertool\.ArchiveInfo\.interval\(p0\.header\.archiveInfoList\[(i\d+|p1)\], i\d+\)$`).MatchString(from)
+		okStep := regexp.MustCompile(`^p0\.header\.archiveInfoList\[(i\d+|p1)\]\.secondsPerPoint$`).MatchString(step) || strings.HasSuffix(step, ".secondsPerPoint")
 		r.Check(okFrom, "C04.R4", "FetchFromArchive:from-aligned", w.instrPos(sh.ret), "fromTime = r.interval(clamped from)", "fromTime is "+from+", not the selected archive's interval() of the clamped from")
 		r.Check(okStep, "C04.R4", "FetchFromArchive:step", w.instrPos(sh.ret), "step is the selected archive's step", "step is "+step+", not the selected archive's secondsPerPoint")
 		// until: phi(interval(until'), interval(until').Add(step)) under from == until
@@ -323,7 +325,7 @@ func rulesC04(w *World, r *Report) {
 					es = append(es, newExprCtx(w).expr(ed))
 				}
 				s := strings.Join(es, "|")
-				if (strings.Contains(s, "p2") && strings.Contains(s, "MaxRetention((*whispertool.Whisper).ArchiveInfoList(p0)[")) || (strings.Contains(s, "p3") && regexp.MustCompile(`(^|\|)(i\d+|p4)($|\|)`).MatchString(s)) {
+				if (strings.Contains(s, "p2") && strings.Contains(s, "MaxRetention(p0.header.archiveInfoList[")) || (strings.Contains(s, "p3") && regexp.MustCompile(`(^|\|)(i\d+|p4)($|\|)`).MatchString(s)) {
 					okClamp++
 				}
 			}
@@ -655,7 +657,7 @@ func ruleAligned(w *World, r *Report, rule string) {
 	}
 	// functions returning slices whose elements are aligned
 	alignedTimeExpr := func(s string) bool {
-		return strings.HasPrefix(s, "(*whispertool.ArchiveInfo).intervalForWrite(")
+		return strings.HasPrefix(s, "whispertool.ArchiveInfo.intervalForWrite(")
 	}
 	// summary: function -> all elements it returns are aligned ([]Point via composite Time, []Timestamp via values)
 	alignedSliceFn := map[*ssa.Function]bool{}
